@@ -254,7 +254,7 @@ def eval_case(ctx, case):
 
 def run(ctx):
     rng = ctx.pyrng("c19")
-    n = ctx.scale(32, 600)
+    n = ctx.scale(32, 6000)
     for i in range(n):
         if ctx.time_left() < 12:
             break
